@@ -64,7 +64,13 @@ Inductive case :=
    not read for a while, then read on: obs is what had arrived when the history was complete *)
 | CStalled (mt : tab (list string)) (cap pause : nat) (evs : list fev) (obs : list string)
 (* the context was cancelled while the consumer was not reading: obs is what arrived *)
-| CCancelled (mt : tab (list string)) (evs : list fev) (obs : list string).
+| CCancelled (mt : tab (list string)) (evs : list fev) (obs : list string)
+(* FilterLines -> Write -> the log file, wired as Run does; after evs1 the log rotation fails (the
+   file cannot be re-created) and evs2 arrive while nothing can be written; then a rotation
+   succeeds and evs3 arrive.  obs1 = what the first file holds, obs3 = what the new file holds:
+   exactly what the rule lets through of evs3 under the filter set by ALL commands before,
+   possibly preceded by the last few permitted lines of evs2 that were still on their way *)
+| CRotated (mt : tab (list string)) (evs1 evs2 evs3 : list fev) (obs1 obs3 : list string).
 
 (* one concrete schedule of the pipeline model: the consumer reads until it has pause lines, then
    the filter moves for as long as it can (the channel fills up, the send blocks), and only then
@@ -105,12 +111,22 @@ Definition case_ok (c : case) : bool :=
       let p := drive (match_tab mt) cap pause (3 * List.length evs + 3) (pinit evs) in
       pdone p && list_eqb String.eqb (deliv p) obs
   | CCancelled mt evs obs => prefixb obs (frun (match_tab mt) fnew evs)
+  | CRotated mt evs1 evs2 evs3 obs1 obs3 =>
+      let m := match_tab mt in
+      let f1 := fstate fnew evs1 in
+      let f2 := fstate f1 evs2 in
+      let out3 := frun m f2 evs3 in
+      let extra := (List.length obs3 - List.length out3)%nat in
+      list_eqb String.eqb (frun m fnew evs1) obs1
+      && list_eqb String.eqb (skipn extra obs3) out3
+      && prefixb (rev (firstn extra obs3)) (rev (frun m f1 evs2))
   end.
 
 (* non-trivial: a parse case whose line the model does NOT simply send verbatim (it is read as a
    comment or a command, valid or not); a file with both an error and a non-error item; a filter
    history in which the model blocks at least one line and passes at least one; a stalled-consumer
-   history with more permitted lines than the log channel holds *)
+   history with more permitted lines than the log channel holds; a rotation history whose part after
+   the recovery has more permitted lines than the channel holds and at least one blocked line *)
 Definition lines_of (evs : list fev) : list string :=
   flat_map (fun e => match e with Line s => [s] | Act _ => [] end) evs.
 
@@ -124,6 +140,9 @@ Definition case_nontrivial (c : case) : bool :=
   | CFilter mt evs _ | CCancelled mt evs _ =>
       let out := frun (match_tab mt) fnew evs in
       negb (is_nil out) && (List.length out <? List.length (lines_of evs))%nat
+  | CRotated mt evs1 evs2 evs3 _ _ =>
+      let out := frun (match_tab mt) (fstate (fstate fnew evs1) evs2) evs3 in
+      (10 <? List.length out)%nat && (List.length out <? List.length (lines_of evs3))%nat
   | CStalled mt cap _ evs _ =>
       (* more permitted lines than the channel holds: the model's filter does block *)
       (cap <? List.length (frun (match_tab mt) fnew evs))%nat
